@@ -595,6 +595,33 @@ theorem abstract_compare_total_order :
   · intro a b
     unfold jleL; rw [abstract_compare_antisymm a b]; cases jcompareL a b <;> simp
 
+/-- `<`, `<=`, `>`, `>=` on values containing abstracts are that same order -/
+theorem abstract_lt_le_gt_ge_agree (a b : AVal N) :
+    jltL a b = (jcompareL a b == .lt) ∧ jgtL a b = jltL b a ∧ jgeL a b = jleL b a ∧ jleL a b = (jltL a b || equalsL a b) ∧
+    jltL a b = !jgeL a b := by
+  have he := abstract_compare_eq_zero_iff_equals a b
+  unfold jltL jgtL jgeL jleL
+  rw [abstract_compare_antisymm a b]
+  cases h : jcompareL a b <;> cases h2 : equalsL a b <;> simp_all <;> decide
+
+/-- equal values (e.g. two different s64 objects with one payload) are interchangeable on either side of a comparison -/
+theorem abstract_compare_congr (a b c : AVal N) (h : equalsL a b = true) :
+    jcompareL a c = jcompareL b c ∧ jcompareL c a = jcompareL c b := by
+  have hab := (abstract_compare_eq_zero_iff_equals a b).mpr h
+  have hba : jcompareL b a = .eq := by rw [abstract_compare_antisymm a b, hab]; rfl
+  have t1 := abstract_compare_triple a b c
+  have t2 := abstract_compare_triple b a c
+  have key : jcompareL a c = jcompareL b c := by
+    cases h1 : jcompareL b c
+    · exact t1.2.2.1 (by simp [hab]) h1
+    · exact t1.2.2.2 hab h1
+    · cases h2 : jcompareL a c
+      · have := t2.2.2.1 (by simp [hba]) h2; simp_all
+      · have := t2.2.2.2 hba h2; simp_all
+      · rfl
+  refine ⟨key, ?_⟩
+  rw [abstract_compare_antisymm a c, abstract_compare_antisymm b c, key]
+
 omit [LawfulNum N] [LawfulAbstract] in
 /-- the abstract-free model `JVal N` (every other theorem of this file) is the fragment of `AVal N` without abstracts:
     hash, `=` and compare commute with the embedding -/
